@@ -10,6 +10,12 @@ def run(ctx):
         # regression stream for the defects repaired by 545b9cc (whiteouts of .wh.* names, of landmark names in
         # the root, of "", "." and ".."): same oracle, same signatures, now ordinary violations
         ctx.correspond(b, "TestVerifC07Findings", "svdriver_c07", "c07regress", env={"VERIF_N": 20 if quick else 600})
+    # the same generator / schedule / oracle / Lean driver over the db (bbolt) metadata store: the layer is served
+    # by a real layer.Resolver (cmd module, exported API only)
+    bdb = ctx.go_test_binary("containerd-stargz-grpc/db", "h_db_c07", module_dir="cmd")
+    if bdb:
+        ctx.correspond(bdb, "TestVerifC07DB", "svdriver_c07", "c07db", env={"VERIF_N": 20 if quick else 700})
+        ctx.correspond(bdb, "TestVerifC07DBFindings", "svdriver_c07", "c07dbregress", env={"VERIF_N": 6 if quick else 150})
     return ctx.finish(
         level="proof",
         rule="one case = one layer built by the real builder from a generated tar (additions, whiteouts, opaque "
@@ -20,7 +26,11 @@ def run(ctx):
              "and after memoisation, with and without go-fuse adopting the child); each call is compared impl-vs-model "
              "and the property predicate (translation of the source tar, agreement, hidden names, chr 0/0, opaque xattr "
              "per mode, inode uniqueness/stability, stat JSON, merged view == applied tars) is evaluated on the "
-             "implementation's answers",
+             "implementation's answers. Both metadata stores: memory (in-package newNode, harness-controlled blob size) "
+             "and db/bbolt (real layer.Resolver over a scripted registry; node inputs from an independent db reader of "
+             "the same blob). Excluded on the db store only: the root node's own Getattr (root attribute block read "
+             "before init, db-root-attr-read-before-init under C02/C05); link counts are not part of the canonical "
+             "form on either store; stat-file error/fetched-size injection is memory-store only",
         assumptions=[
             "kernel overlayfs follows the merge rules of Documentation/filesystems/overlayfs.rst as rendered by "
             "SV.Overlay.descend/ovlResolve (and, independently, by the harness' verifMerge)",
@@ -34,5 +44,6 @@ def run(ctx):
             "real entries of a layer are named by path components (non-empty, not . or ..)",
             "root filesystem equality is equality of the path -> (kind, attributes of the providing entry) maps; "
             "xattr listings of the merged view are outside the model",
-            "memory metadata store only (the db store lives in the cmd module; its equivalence is C05)",
+            "db store: metadata ids of two db readers over the same blob coincide (TOC order); checked by the "
+            "correspondence itself",
         ])
